@@ -61,10 +61,18 @@ impl Prop for C10P {
                 }
             }
         }
+        for (c, r) in super::hugezst::shapes() {
+            v.push(format!("hugezst {}x{}", c, r));
+        }
         v
     }
     fn run_unit(&self, unit: &str, ctx: &mut Ctx) {
         let p: Vec<&str> = unit.split(' ').collect();
+        if p[0] == "hugezst" {
+            let (c, r) = super::hugezst::parse_shape(p[1]);
+            run_huge_zst(c, r, ctx);
+            return;
+        }
         let kind = p[0];
         let (c, r) = p[1].split_once('x').unwrap();
         let (c, r): (usize, usize) = (c.parse().unwrap(), r.parse().unwrap());
@@ -75,11 +83,56 @@ impl Prop for C10P {
          Every call sequence up to the depth bound over {next, next_back, nth(n), nth_back(n)} with n in 0..=cells+1, every k*cols and k*cols+-1 (within-row, row-crossing, exact-row-multiple, beyond-end) and huge values (usize::MAX, products that wrap the row stride), cut two calls after exhaustion, on a fresh real iterator; len()/size_hint()/num_cols() after every call; \
          every proper prefix closed with count, last, fold, rfold, for_each, rev-then-forward. Since every (front row, row iterator, back row) emptiness combination is reachable in two calls, depth 3 applies every letter in each. \
          Results compared by ADDRESS with the ideal row-major VecDeque; cells_mut items are written through and the array must show exactly those writes (each cell exactly once). \
+         Arrays of () with close to usize::MAX cells and their windows: cells() / cells_mut() / (&array).into_iter() must report exact len()/size_hint() and follow the ideal sequence by count for every sequence of up to three calls of next / next_back / nth(0..=2) / nth_back(0..=2), and - when at most four cells are left - jumps by huge n, count and last. \
          states = distinct (subject, front, back) cursor positions; transitions = iterator calls; traces_validated_against_impl = sequences executed."
             .into()
     }
     fn bound(&self, tier: Tier) -> String {
         tier.pick("shapes up to 3x3, depth 3", "shapes up to 3x3 at depth 4, 4-wide/4-tall shapes at depth 3").into()
+    }
+}
+
+/// cells() / cells_mut() / into_iter() of huge arrays of () and of their windows (see props/hugezst.rs).
+fn run_huge_zst(c: usize, r: usize, ctx: &mut Ctx) {
+    use super::hugezst::{array, enc, run, sequences, windows};
+    for (s, e) in windows(c, r) {
+        let (wc, wr) = (e.0 - s.0, e.1 - s.1);
+        let len = wc.checked_mul(wr).expect("window cell count fits");
+        for seq in sequences(len, &[c, wc]) {
+            for kind in 0..5u8 {
+                if kind < 3 && (s, e) != ((0, 0), (c, r)) {
+                    continue;
+                }
+                let name = ["TooDee::cells()", "TooDee::cells_mut()", "(&TooDee).into_iter()", "view(..).cells()", "view_mut(..).cells_mut()"][kind as usize];
+                ctx.case(
+                    || format!("TooDee<()> {}x{} window {:?}-{:?} {}: {}", c, r, s, e, name, enc(&seq)),
+                    |cs| {
+                        cs.nontrivial((c, r, s, e, kind, &seq));
+                        cs.outcome("huge-zst");
+                        cs.transitions = seq.len() as u64;
+                        cs.traces = 1;
+                        let mut t = array(c, r);
+                        let what = format!("{} of the {}x{} window", name, wc, wr);
+                        let built = match kind {
+                            0 => crate::engine::guarded(|| run(t.cells(), len, &seq, |_| None, &what, cs)),
+                            1 => crate::engine::guarded(|| run(t.cells_mut(), len, &seq, |_| None, &what, cs)),
+                            2 => crate::engine::guarded(|| run((&t).into_iter(), len, &seq, |_| None, &what, cs)),
+                            3 => crate::engine::guarded(|| {
+                                let v = t.view(s, e);
+                                run(v.cells(), len, &seq, |_| None, &what, cs)
+                            }),
+                            _ => crate::engine::guarded(|| {
+                                let mut v = t.view_mut(s, e);
+                                run(v.cells_mut(), len, &seq, |_| None, &what, cs)
+                            }),
+                        };
+                        if let Err(m) = built {
+                            cs.fail("hugezst:panic", format!("building {} panicked: {}", what, m));
+                        }
+                    },
+                );
+            }
+        }
     }
 }
 
